@@ -2,7 +2,7 @@
 // Use of this source code is governed by a BSD-style
 // license that can be found in the LICENSE file.
 
-package interp
+package vm
 
 // Values
 //
@@ -39,7 +39,6 @@ import (
 	"fmt"
 	"go/types"
 	"io"
-	"reflect"
 	"strings"
 	"unsafe"
 
@@ -230,8 +229,10 @@ func equals(t types.Type, x, y value) bool {
 		return x == y.(string)
 	case *value:
 		return x == y.(*value)
-	case chan value:
-		return x == y.(chan value)
+	case *vchan:
+		return x == y.(*vchan)
+	case unsafe.Pointer:
+		return x == y.(unsafe.Pointer)
 	case structure:
 		return x.eq(t, y)
 	case array:
@@ -291,8 +292,10 @@ func hash(outer, t types.Type, x value) int {
 		return hashString(x)
 	case *value:
 		return int(uintptr(unsafe.Pointer(x)))
-	case chan value:
-		return int(uintptr(reflect.ValueOf(x).Pointer()))
+	case *vchan:
+		return int(uintptr(unsafe.Pointer(x)))
+	case unsafe.Pointer:
+		return int(uintptr(x))
 	case structure:
 		return x.hash(t)
 	case array:
@@ -362,35 +365,31 @@ func writeValue(buf *bytes.Buffer, v value) {
 	case nil, bool, int, int8, int16, int32, int64, uint, uint8, uint16, uint32, uint64, uintptr, float32, float64, complex64, complex128, string:
 		fmt.Fprintf(buf, "%v", v)
 
-	case map[value]value:
+	case *omap:
 		buf.WriteString("map[")
 		sep := ""
-		for k, e := range v {
-			buf.WriteString(sep)
-			sep = " "
-			writeValue(buf, k)
-			buf.WriteString(":")
-			writeValue(buf, e)
-		}
-		buf.WriteString("]")
-
-	case *hashmap:
-		buf.WriteString("map[")
-		sep := " "
-		for _, e := range v.entries() {
-			for e != nil {
+		if v != nil {
+			for _, e := range v.ents {
+				if !e.live {
+					continue
+				}
 				buf.WriteString(sep)
 				sep = " "
-				writeValue(buf, e.key)
+				writeValue(buf, e.k)
 				buf.WriteString(":")
-				writeValue(buf, e.value)
-				e = e.next
+				writeValue(buf, e.v)
 			}
 		}
 		buf.WriteString("]")
 
-	case chan value:
-		fmt.Fprintf(buf, "%v", v) // (an address)
+	case *vchan:
+		fmt.Fprintf(buf, "%p", v)
+
+	case sym:
+		fmt.Fprintf(buf, "<sym#%d>", v.t.ID)
+
+	case symstr:
+		fmt.Fprintf(buf, "<symstr len %d>", len(v))
 
 	case *value:
 		if v == nil {
@@ -484,37 +483,3 @@ func (it *stringIter) next() tuple {
 	return okv
 }
 
-type mapIter struct {
-	iter *reflect.MapIter
-	ok   bool
-}
-
-func (it *mapIter) next() tuple {
-	it.ok = it.iter.Next()
-	if !it.ok {
-		return []value{false, nil, nil}
-	}
-	k, v := it.iter.Key().Interface(), it.iter.Value().Interface()
-	return []value{true, k, v}
-}
-
-type hashmapIter struct {
-	iter *reflect.MapIter
-	ok   bool
-	cur  *entry
-}
-
-func (it *hashmapIter) next() tuple {
-	for {
-		if it.cur != nil {
-			k, v := it.cur.key, it.cur.value
-			it.cur = it.cur.next
-			return []value{true, k, v}
-		}
-		it.ok = it.iter.Next()
-		if !it.ok {
-			return []value{false, nil, nil}
-		}
-		it.cur = it.iter.Value().Interface().(*entry)
-	}
-}
